@@ -1,5 +1,5 @@
 """C17 — reused comparison targets carry nothing over (the history clause is decided by typestate)."""
-from ..rules import effbs, validate, typestate, fields, vis, eqord, witness, casts, summary, features, beliefs
+from ..rules import effbs, validate, typestate, fields, vis, eqord, witness, casts, summary, features, beliefs, data
 
 EXPL = ("Decides the history clause: typestate Zero/Unknown over the 64xu64 occupancy-mask arrays of FuzzyHashCompareTarget (two "
         "locations, through the block_hash_K_mut views) and BlockHashPositionArray, with effects inferred from bodies (Clear = whole "
@@ -39,6 +39,7 @@ def run(ctx):
             ctx.guard("C17", "contracts", lambda: validate.constructors(ctx, prog))
         ctx.guard("C17", "traits", lambda: vis.trait_census(ctx, prog, scope='position_array::|FuzzyHashCompareTarget'))
         ctx.guard("C17", "casts", lambda: casts.census(ctx, prog, scope='compare::position_array::', floor=3))
+        ctx.guard("C17", "const values", lambda: data.const_census(ctx, prog, data.CONST_SCOPES["C17"], floor=1))
         ctx.guard("C17", "summaries", lambda: summary.check(ctx, prog, 'compare::position_array::|FuzzyHashCompareTarget::(new|init_from|block_hash_[12]|is_equiv|full_eq|log_block_size|block_size)|core::default::Default>::default', floor=10))
         ctx.guard("C17", "path summaries", lambda: summary.check_paths(ctx, prog, 'compare::position_array::|FuzzyHashCompareTarget::(new|init_from|block_hash_[12]|is_equiv|full_eq|log_block_size|block_size)|core::default::Default>::default', floor=6))
         if c in ("dbg", "unsafe_dbg", "strict_dbg"):
